@@ -291,7 +291,7 @@ pub fn run_side_effect_analysis(cfg: &Cfg) -> ReportCollection {
         .flat_map(|source| {
             let mut result = constraint_analysis.multi_step_constraint(source);
             // If the source is part of a constraint we include it in the result.
-            if !result.is_empty() {
+            if constraint_analysis.is_constrained(source) {
                 result.insert(source.clone());
             }
             result
